@@ -274,7 +274,7 @@ package state
 //@ spec inputSame(m, o) = has(m.inputs, o) == old(has(m.inputs, o)) && (has(m.inputs, o) ==> seqeq(m.inputs[o], old(m.inputs[o])))
 
 //@ func (*MemPool).AddTransaction
-//@   serves C05 C14
+//@   serves C05 C14 C03 C06 C07
 //@   atomic mutex
 //@   requires tx != nil && InvTx(memPool) && InvIn(memPool) && forall(k, 0, len(tx.TxIn), tx.TxIn[k] != nil)
 //@   let id = TxHashOf(tx)
@@ -338,7 +338,7 @@ package state
 //@   loop 1 invariant 0 <= _i1 && _i1 <= len(otherHashes) && forall(c, 0, _i1, otherHashes[c] != hash)
 
 //@ func (*MemPool).RemoveTransaction
-//@   serves C05 C14 C03
+//@   serves C05 C14 C03 C06
 //@   atomic mutex
 //@   requires InvTx(memPool) && InvIn(memPool) && Distinct(memPool)
 //@   requires {reg} Reg(memPool)
@@ -356,7 +356,7 @@ package state
 //@   ensures frame: same(memPool.txs, memPool.inputs, memPool.requests)
 
 //@ func (*MemPool).IsTrusted
-//@   serves C07 C12
+//@   serves C07 C12 C11
 //@   atomic mutex
 //@   requires InvTx(memPool)
 //@   ensures value: result == (has(memPool.txs, txid) && memPool.txs[txid].trusted)
@@ -368,7 +368,7 @@ package state
 // contract (C05) takes the transaction out of the pool and out of the index under each of its
 // outpoints — and reports exactly the transactions it evicts.
 //@ func (*MemPool).Conflicting
-//@   serves C06 C05
+//@   serves C06 C05 C03
 //@   opt nomonitor = 1
 //@   opt partial = 1
 //@   opt abstract = removeTransaction
